@@ -123,3 +123,65 @@ bounded('ref_chunked_length', '''  VASSUME(in.la <= N);
   if (s == in.la) VASSERT(r == -1004, "empty chunk length line");
   if (s < in.la && v == -1) VASSERT(r < 0, "no hex digit is an error");
 ''', 'unsigned char a[N]; size_t la;', 10, 12, sub='chunk length == hexadecimal reference, > INT32_MAX is an error', src=('htp_util.c',), link=('bstr.c',), timeout=(600, 1800))
+
+# ---- the building half of bstr (allocate / copy / append / expand): constant-enumerated lengths (symbolic-size heap objects do not bit-blast) ----
+BUILD = r'''
+#define EQ(bs, src, n, what) do { for (size_t i_ = 0; i_ < (n); i_++) VASSERT(bstr_ptr(bs)[i_] == (src)[i_], what); } while (0)
+static void build_case(const unsigned char *a, const size_t LA, const unsigned char *b, const size_t LB) {      /* LA, LB are constants at every call site */
+  unsigned char ab[2 * N + 1];
+  for (size_t i = 0; i < LA; i++) ab[i] = a[i];
+  for (size_t i = 0; i < LB; i++) ab[LA + i] = b[i];
+  /* bstr_dup_mem / bstr_dup / bstr_dup_ex / bstr_dup_lower */
+  bstr *x = bstr_dup_mem(a, LA);
+  if (x != NULL) {
+    VASSERT(bstr_len(x) == LA && bstr_size(x) >= LA && x->realptr == NULL, "dup_mem: length as given, capacity sufficient, inline storage");
+    EQ(x, a, LA, "dup_mem copies the bytes");
+    bstr *d = bstr_dup(x);
+    if (d != NULL) { VASSERT(d != x && bstr_len(d) == LA, "dup: a distinct string of the same length"); EQ(d, a, LA, "dup copies the bytes"); bstr_free(d); }
+    bstr *e = bstr_dup_ex(x, LA > 0 ? 1 : 0, LA > 0 ? LA - 1 : 0);
+    if (e != NULL) { VASSERT(bstr_len(e) == (LA > 0 ? LA - 1 : 0), "dup_ex: requested length"); EQ(e, a + (LA > 0 ? 1 : 0), bstr_len(e), "dup_ex copies the bytes from the requested offset"); bstr_free(e); }
+    bstr *lo = bstr_dup_lower(x);
+    if (lo != NULL) { VASSERT(bstr_len(lo) == LA, "dup_lower keeps the length"); for (size_t i = 0; i < LA; i++) VASSERT(bstr_ptr(lo)[i] == ref_low(a[i]), "dup_lower folds exactly A-Z"); EQ(x, a, LA, "dup_lower leaves its argument alone"); bstr_free(lo); }
+    /* bstr_add_mem: grows when needed; on failure the destination is left as it was (the caller still owns it) */
+    bstr *y = bstr_add_mem(x, b, LB);
+    if (y != NULL) {
+      VASSERT(bstr_len(y) == LA + LB && bstr_size(y) >= LA + LB && y->realptr == NULL, "add_mem: len' = len + n, capacity sufficient");
+      EQ(y, ab, LA + LB, "add_mem: old bytes followed by the new ones");
+      /* bstr_expand: larger or equal only, contents kept */
+      bstr *w = bstr_expand(y, LA + LB + 2);
+      if (w != NULL) { VASSERT(bstr_size(w) == LA + LB + 2 && bstr_len(w) == LA + LB, "expand: capacity as requested, length kept"); EQ(w, ab, LA + LB, "expand keeps the bytes"); y = w; }
+      if (bstr_size(y) > 0) VASSERT(bstr_expand(y, bstr_size(y) - 1) == NULL && bstr_len(y) == LA + LB, "expand refuses to shrink and changes nothing");
+      /* bstr_add_mem_noex: never beyond the capacity */
+      size_t room = bstr_size(y) - bstr_len(y);
+      bstr *z = bstr_add_mem_noex(y, a, LA);
+      VASSERT(z == y && bstr_len(y) == LA + LB + (LA < room ? LA : room) && bstr_len(y) <= bstr_size(y), "add_mem_noex appends min(n, room) bytes and never exceeds the capacity");
+      EQ(y, ab, LA + LB, "add_mem_noex keeps the old bytes");
+      for (size_t i = 0; i < LA; i++) if (LA + LB + i < bstr_len(y)) VASSERT(bstr_ptr(y)[LA + LB + i] == a[i], "add_mem_noex appends a prefix of the new bytes");
+      bstr_chop(y);
+      VASSERT(bstr_len(y) == (LA + LB + (LA < room ? LA : room) > 0 ? LA + LB + (LA < room ? LA : room) - 1 : 0), "chop removes one byte (none from an empty string)");
+      bstr_free(y);
+    } else {
+      VASSERT(bstr_len(x) == LA && x->realptr == NULL, "add_mem failed: the destination is unchanged and still owned by the caller");
+      EQ(x, a, LA, "add_mem failed: bytes unchanged");
+      bstr_free(x);
+    }
+  }
+  /* wrapped strings cannot grow */
+  bstr *wr = bstr_wrap_mem(a, LA);
+  if (wr != NULL) {
+    VASSERT(bstr_len(wr) == LA && bstr_ptr(wr) == a, "wrap_mem refers to the caller's bytes");
+    VASSERT(bstr_expand(wr, LA + 1) == NULL, "a wrapped string is not expanded");
+    bstr_free(wr);
+  }
+}
+'''
+for _nm, _mx, _to in (('ref_bstr_build', 2, False), ('ref_bstr_build_n3', 3, True)):
+    _cases = ' '.join('if (in.la == %d && in.lb == %d) build_case(in.a, %d, in.b, %d);' % (i, j, i, j) for i in range(_mx + 1) for j in range(_mx + 1))
+    UNITS.append(U(
+        name=_nm, props=['C17', 'C18', 'C02'], kind='bounded', src=['bstr.c'], replay='vin', contracts_inc=['str_ref.h'], thorough_only=_to,
+        harness=BUILD + 'typedef struct { unsigned char a[N]; unsigned char b[N]; size_t la; size_t lb; } vin_t;\nvoid HARNESS(void) { VIN(vin_t);\n  VASSUME(in.la <= N && in.lb <= N);\n  ' + _cases + '\nCANARY(); }',
+        defs={'quick': {'N': _mx}}, flags_add=['--unwind', '10', '--unwinding-assertions', '--memory-leak-check'], flags_del=['--unsigned-overflow-check'], timeout=(600, 1200), min_obl=100,
+        bound='all pairs of strings of length 0..%d over all byte values (lengths enumerated as constants); every allocation may fail' % _mx,
+        sub='the building half of bstr on the real code: dup_mem / dup / dup_ex / dup_lower copy exactly the requested bytes; add_mem = old ++ new with len\' = len + n (grows when needed, destination intact on failure); '
+            'expand keeps contents, refuses to shrink and refuses wrapped strings; add_mem_noex appends min(n, room) and never exceeds the capacity; chop; no leak in any allocation-failure pattern',
+        assumes=['lengths <= %d: the functions are length-generic (memcpy with the given length); the bound is a tool limit (symbolic-size heap objects), stated in DESIGN 8.2' % _mx]))
